@@ -159,6 +159,8 @@ class Model:
         ops.append(["setdef", "Tlm"])            # a container's own parameter
         ops.append(["setdef", "Tlm:subkey"])     # a sub-circuit key is not a parameter: refused
         ops.append(["setdef", "Resistor:unknown"])
+        ops.append(["setdef", "Resistor:unknown-positional"])   # the positional (key, value) form of the same refused call
+        ops.append(["setdef", "K"])                              # a built-in that is private (hidden from listings)
         if "U1" in ref.initialised:
             ops.append(["setdef", "U1"])
         ops.append(["resetdef", None])
@@ -196,6 +198,10 @@ class Model:
                     self.S["DE"]["Tlm"].set_default_values(X_1=5.0)
                 elif op[1] == "Resistor:unknown":
                     A["Resistor"].set_default_values(Q=1.0)
+                elif op[1] == "Resistor:unknown-positional":
+                    A["Resistor"].set_default_values("Q", 1.0)
+                elif op[1] == "K":
+                    self.S["DE"]["K"].set_default_values(R=5.0)
                 else:
                     self.cls(impl, op[1]).Class.set_default_values(R=5.0)
             elif op[0] == "probe":
@@ -254,8 +260,10 @@ class Model:
                 ref.defaults["C"]["C"] = 3e-6
             elif op[1] == "Tlm":
                 ref.defaults["Tlm"]["L"] = 2.0
-            elif op[1] in ("Tlm:subkey", "Resistor:unknown"):
+            elif op[1] in ("Tlm:subkey", "Resistor:unknown", "Resistor:unknown-positional"):
                 return "KeyError"
+            elif op[1] == "K":
+                ref.defaults["K"]["R"] = 5.0
             else:
                 ref.userdef[op[1]] = 5.0
             return "ok"
